@@ -300,7 +300,7 @@ func ruleR08(c *Ctx) {
 		check("the bytes compared with stored keys", roleA, wantRange)
 		check("the bytes driving the descent", roleB, wantRange)
 		// restoreKey strips exactly the terminator
-		if ru := tk.Methods["restoreKey"]; ru != nil {
+		if ru := m.restoreUnit(tk); ru != nil {
 			strips := false
 			ast.Inspect(ru.Body, func(n ast.Node) bool {
 				if se, ok := n.(*ast.SliceExpr); ok && se.High != nil {
